@@ -1,5 +1,7 @@
 import CkbVerif.Lemmas.Freezer
 import CkbVerif.Lemmas.FreezerTop
+import CkbVerif.Lemmas.FreezerOpen
+import CkbVerif.Lemmas.FreezerLru
 
 /-!
 # C09 — the freezer never loses or corrupts a frozen item, whatever crash interrupts it
@@ -330,6 +332,194 @@ example :
       retrieve a.1 a.2 2 == retrieve b.1 b.2 2, retrieve a.1 a.2 3 == retrieve b.1 b.2 3) =
       (0, 15, 3, 3, true, true) := by decide
 
+/-! ## round 6 — the read-handle LRU, exactly
+
+`openL` / `appendL` / `truncateL` / `retrieveCache` (`Model/Freezer.lean`) maintain `Handle.cache`
+as the real `LruCache` does (capacity, promotion, eviction, the pops of `release` and
+`delete_after`).  Stream `freezer` compares the cached ids (hook `verif_cached_ids`, most recently
+used first) and the data files on disk with the model after every operation, with capacities 2, 3
+and 256.  By definition the `…L` operations return the disk, `number`, `head_id` and `head.bytes` of
+the plain operations, so every theorem above applies to them; what the LRU adds is below. -/
+
+inductive LOp where
+  | append (x : Bytes)
+  | truncate (k : Nat)
+  | reopen
+  | retrieve (i : Nat)
+
+/-- one step with the exact cache; `none` = a re-open failed -/
+def stepL (cap max : Nat) (s : Sys) : LOp → Option Sys
+  | .append x => some ⟨(appendL cap max s.h s.d x).1, (appendL cap max s.h s.d x).2⟩
+  | .truncate k => some ⟨(truncateL cap s.h s.d k).1, (truncateL cap s.h s.d k).2⟩
+  | .reopen => (openL cap s.d).map fun r => ⟨r.1, r.2⟩
+  | .retrieve i => some ⟨{ s.h with cache := retrieveCache cap s.h s.d i }, s.d⟩
+
+def runL (cap max : Nat) : Sys → List LOp → Option Sys
+  | s, [] => some s
+  | s, op :: ops => (stepL cap max s op).bind fun s' => runL cap max s' ops
+
+/-- no cached read handle is on a data file above the head -/
+def CacheOk (s : Sys) : Prop := ∀ id ∈ s.h.cache, id ≤ s.h.headId
+
+def LOp.plainOf : LOp → Option Op
+  | .append x => some (.append x)
+  | .truncate k => some (.truncate k)
+  | .reopen => some .reopen
+  | .retrieve _ => none
+
+theorem lru_step_inv (cap max : Nat) (s : Sys) (items : List Bytes) (op : LOp)
+    (hi : Inv s items) (hc : CacheOk s) :
+    ∃ s' items', stepL cap max s op = some s' ∧ Inv s' items' ∧ CacheOk s' ∧
+      (match op.plainOf with
+       | some p => SpecStep max s items p items'
+       | none => items' = items ∧ s'.d = s.d ∧ s'.h.number = s.h.number) := by
+  cases op with
+  | append x =>
+    obtain ⟨hg, hk⟩ := append_good max x hi.1 hi.2
+    refine ⟨_, items ++ [x], rfl, ⟨hg, hk⟩, ?_, rfl⟩
+    intro id hid
+    show id ≤ (append max s.h s.d x).1.headId
+    simp only [appendL] at hid
+    unfold append
+    by_cases hroll : s.h.headBytes + x.length > max
+    · simp only [hroll, if_true] at hid ⊢
+      rcases mem_lruPut hid with h1 | h1
+      · omega
+      · rcases mem_lruPut (mem_lruPop h1) with h2 | h2
+        · omega
+        · have := hc id h2; omega
+    · simp only [hroll, if_false] at hid ⊢
+      exact hc id hid
+  | truncate k =>
+    by_cases hk : 1 ≤ k ∧ k < items.length
+    · -- a real truncation
+      have hlen := hi.1.idx_length
+      have hnum := hi.2.1
+      have hguard : ¬ (k < 1 ∨ k + 1 ≥ s.h.number) := by omega
+      obtain ⟨e, he'⟩ : ∃ e, (s.d.idx.take (k + 1))[k]? = some e :=
+        ⟨(s.d.idx.take (k + 1))[k]'(by simp; omega), List.getElem?_eq_getElem _⟩
+      by_cases hx : e.fid ≠ s.h.headId
+      · -- across files: the plain truncate on the handle with the cache as it is at delete_after
+        let h' : Handle := { s.h with cache := lruPut cap (lruPop s.h.cache e.fid) e.fid }
+        have hk' : HandleOk h' s.d := hi.2
+        obtain ⟨g2, k2⟩ := (truncate_good hi.1 hk' k).1 hk
+        have hst : truncateL cap s.h s.d k =
+            ({ (truncate h' s.d k).1 with cache := (lruPut cap (lruPop s.h.cache e.fid) e.fid).filter (· ≤ e.fid) },
+             (truncate h' s.d k).2) := by
+          unfold truncateL
+          rw [if_neg hguard, he']
+          simp only [hx, ne_eq, not_false_eq_true, if_true]
+          rfl
+        have hhead : (truncate h' s.d k).1.headId = e.fid := by
+          unfold truncate
+          have hg' : ¬ (k < 1 ∨ k + 1 ≥ h'.number) := hguard
+          rw [if_neg hg']
+          simp only [he']
+        refine ⟨⟨(truncateL cap s.h s.d k).1, (truncateL cap s.h s.d k).2⟩, items.take k, rfl, ?_, ?_, ?_⟩
+        · show Good (truncateL cap s.h s.d k).2 _ ∧ HandleOk (truncateL cap s.h s.d k).1 (truncateL cap s.h s.d k).2
+          rw [hst]
+          exact ⟨g2, k2.1, k2.2⟩
+        · intro id hid
+          show id ≤ (truncateL cap s.h s.d k).1.headId
+          have hid' : id ∈ (truncateL cap s.h s.d k).1.cache := hid
+          rw [hst] at hid' ⊢
+          have := (List.mem_filter.mp hid').2
+          show id ≤ (truncate h' s.d k).1.headId
+          rw [hhead]; simpa using this
+        · show SpecStep max s items (.truncate k) (items.take k)
+          simp [SpecStep, hk]
+      · -- inside the head file: the plain truncate
+        have hx' : e.fid = s.h.headId := by simpa using hx
+        obtain ⟨g2, k2⟩ := (truncate_good hi.1 hi.2 k).1 hk
+        have hst : truncateL cap s.h s.d k = truncate s.h s.d k := by
+          unfold truncateL
+          rw [if_neg hguard, he']
+          simp only [hx', ne_eq, not_true_eq_false, if_false]
+        have hres : (truncate s.h s.d k).1.headId = s.h.headId ∧ (truncate s.h s.d k).1.cache = s.h.cache := by
+          unfold truncate
+          rw [if_neg hguard]
+          simp only [he', hx', ne_eq, not_true_eq_false, if_false, and_self]
+        refine ⟨⟨(truncateL cap s.h s.d k).1, (truncateL cap s.h s.d k).2⟩, items.take k, rfl, ?_, ?_, ?_⟩
+        · show Good (truncateL cap s.h s.d k).2 _ ∧ HandleOk (truncateL cap s.h s.d k).1 (truncateL cap s.h s.d k).2
+          rw [hst]
+          exact ⟨g2, k2⟩
+        · intro id hid
+          show id ≤ (truncateL cap s.h s.d k).1.headId
+          have hid' : id ∈ (truncateL cap s.h s.d k).1.cache := hid
+          rw [hst] at hid' ⊢
+          rw [hres.1]
+          exact hc id (by rw [← hres.2]; exact hid')
+        · show SpecStep max s items (.truncate k) (items.take k)
+          simp [SpecStep, hk]
+    · -- outside the range: nothing happens
+      have hlen := hi.1.idx_length
+      have hnum := hi.2.1
+      have hguard : k < 1 ∨ k + 1 ≥ s.h.number := by omega
+      have hst : truncateL cap s.h s.d k = (s.h, s.d) := by
+        unfold truncateL
+        rw [if_pos hguard]
+        exact truncate_noop_aux k hguard
+      refine ⟨⟨(truncateL cap s.h s.d k).1, (truncateL cap s.h s.d k).2⟩, items, rfl, ?_, ?_, ?_⟩
+      · show Good (truncateL cap s.h s.d k).2 _ ∧ HandleOk (truncateL cap s.h s.d k).1 (truncateL cap s.h s.d k).2
+        rw [hst]; exact hi
+      · intro id hid
+        show id ≤ (truncateL cap s.h s.d k).1.headId
+        have hid' : id ∈ (truncateL cap s.h s.d k).1.cache := hid
+        rw [hst] at hid' ⊢
+        exact hc id hid'
+      · show SpecStep max s items (.truncate k) items
+        simp [SpecStep, hk]
+  | reopen =>
+    obtain ⟨h, d2, ho, hg, hh⟩ := reopen_good hi.1
+    obtain ⟨cc, hoL, hcc⟩ := openL_of_open (cap := cap) ho
+    exact ⟨⟨{ h with cache := cc }, d2⟩, items, by simp only [stepL, hoL, Option.map_some],
+      ⟨hg, hh⟩, fun id hid => hcc id hid, rfl⟩
+  | retrieve i =>
+    refine ⟨_, items, rfl, ⟨hi.1, hi.2⟩, ?_, rfl, rfl, rfl⟩
+    intro id hid
+    simp only [retrieveCache] at hid
+    show id ≤ s.h.headId
+    split at hid
+    · exact hc id hid
+    · split at hid
+      · exact hc id hid
+      · split at hid
+        · exact hc id hid
+        · rename_i a b fid hb
+          obtain ⟨en, hen, hfid⟩ := getBounds_fid hb
+          have hle := hi.1.fid_le_head hi.2 hen
+          split at hid
+          · exact hc id (mem_lruGet hid)
+          · rcases mem_lruPut hid with h1 | h1
+            · omega
+            · exact hc id h1
+
+/-- **The read handles never outlive their files.**  For every capacity and every history of
+    appends, truncations, re-opens and retrieves with the cache maintained as the real `LruCache`
+    does: no re-open fails, the freezer holds the items the list specification says, and no cached
+    handle is on a data file above the head — i.e. none on a file `delete_after` unlinked, the only
+    place where a name is removed.  (A handle on a file `≤ head_id` cannot be stale: such a name is
+    never unlinked or re-bound, see `Model/FreezerTop.lean`.) -/
+theorem lru_handles_never_outlive_files (cap max : Nat) : ∀ (ops : List LOp) (s : Sys)
+    (items : List Bytes), Inv s items → CacheOk s →
+    ∃ s' items', runL cap max s ops = some s' ∧ Inv s' items' ∧ CacheOk s'
+  | [], s, items, hi, hc => ⟨s, items, rfl, hi, hc⟩
+  | op :: ops, s, items, hi, hc => by
+    obtain ⟨s1, i1, hs, hi1, hc1, _⟩ := lru_step_inv cap max s items op hi hc
+    obtain ⟨s2, i2, hr, hi2, hc2⟩ := lru_handles_never_outlive_files cap max ops s1 i1 hi1 hc1
+    exact ⟨s2, i2, by simp [runL, hs, hr], hi2, hc2⟩
+
+/-- capacity 2: four items over two files; retrieving item 1 promotes file 0, a cross-file truncate
+    pops file 1 and unlinks it; and with capacity 2 a third file evicts the oldest handle -/
+example : ((openL 2 emptyDisk).bind fun r => runL 2 50 ⟨r.1, r.2⟩
+      [.append (List.replicate 15 1), .append (List.replicate 15 2), .append (List.replicate 15 3),
+       .append (List.replicate 15 4), .retrieve 1, .append (List.replicate 40 5)]).map
+      (fun s => (s.h.cache, s.h.headId)) = some ([1, 2], 2) ∧
+    ((openL 2 emptyDisk).bind fun r => runL 2 50 ⟨r.1, r.2⟩
+      [.append (List.replicate 15 1), .append (List.replicate 15 2), .append (List.replicate 15 3),
+       .append (List.replicate 15 4), .retrieve 1, .truncate 2]).map
+      (fun s => (s.h.cache, s.h.headId, (s.d.files 1).length)) = some ([0], 0, 0) := by decide
+
 /-! ## the `Freezer` layer (`freezer/src/freezer.rs`, model `Model/FreezerTop.lean`)
 
 Items are blocks; `c : Cfg` carries the compression pair `(cmp, dcmp)` and the block codec
@@ -371,6 +561,12 @@ inductive TopOp where
   | reopen
   /-- a crash that leaves the index at `il` bytes and the head data file at `fl`, then `open` -/
   | crash (il : Nat) (fl : Option Nat)
+  /-- (round 6) a `freeze` of another thread whose pre-lock `self.number()` returned `n0` — ANY
+      value, i.e. any operations ran between that read and the lock -/
+  | freezeRace (n0 thr : Nat) (get : Nat → Option Block) (stopped : Nat → Bool)
+  /-- (round 6) a `truncate` whose pre-lock guard read `n0`; modelled for `n0 ≤ number` (only
+      freezes ran in between; `truncate_racing_truncate_can_panic` is the other case) -/
+  | truncateRace (n0 k : Nat)
 
 /-- one step; `none` = `Freezer::open` / `Freezer::truncate` returned an error -/
 def stepTop (c : Cfg) (s : Top) : TopOp → Option Top
@@ -378,6 +574,8 @@ def stepTop (c : Cfg) (s : Top) : TopOp → Option Top
   | .truncate k => truncateTop c s k
   | .reopen => openTop c s.d
   | .crash il fl => if INDEX_ENTRY_SIZE ≤ il then crashOpen c s il fl else some s
+  | .freezeRace n0 thr get stopped => some (freezeFrom c s n0 thr get stopped).1
+  | .truncateRace n0 k => if n0 ≤ s.h.number then truncateFrom c s n0 k else some s
 
 def runTop (c : Cfg) : Top → List TopOp → Option Top
   | s, [] => some s
@@ -395,6 +593,13 @@ def SpecStepTop (s : Top) (chain : List Block) : TopOp → List Block → Prop
       ∃ n, n ≤ chain.length ∧ chain' = chain.take n ∧
         (∀ i, i < chain.length → Survives s.h s.d il fl i → i < n)
     else chain' = chain
+  | .freezeRace n0 thr get _, chain' =>
+    if n0 = chain.length + 1 then
+      ∃ new, chain' = chain ++ new ∧ new.length ≤ thr - (chain.length + 1) ∧
+        ∀ j b, new[j]? = some b → get (chain.length + 1 + j) = some b
+    else chain' = chain
+  | .truncateRace n0 k, chain' =>
+    chain' = if n0 ≤ chain.length + 1 ∧ 1 ≤ k ∧ k + 1 < n0 then chain.take k else chain
 
 theorem step_top_inv {c : Cfg} (ok : c.Ok) (s : Top) (chain : List Block) (op : TopOp)
     (hi : TopInv c s chain) :
@@ -420,6 +625,37 @@ theorem step_top_inv {c : Cfg} (ok : c.Ok) (s : Top) (chain : List Block) (op : 
       rw [if_pos hc]
       exact ⟨n, hn, rfl, fun i h1 ⟨e, he1, he2, he3⟩ => hs i e h1 he1 he2 he3⟩
     · exact ⟨s, chain, by simp [stepTop, hc], by simp [SpecStepTop, hc], hi⟩
+  | freezeRace n0 thr get stopped =>
+    have hnum := hi.number
+    by_cases hn : n0 = s.h.number
+    · subst hn
+      obtain ⟨_, h2⟩ := freeze_spec hi thr get stopped
+      refine ⟨_, _, rfl, ?_, h2⟩
+      show (if s.h.number = chain.length + 1 then _ else _)
+      rw [if_pos hnum]
+      exact ⟨_, rfl, specRun_length_le _ _ _ _ _, fun j b hj => specRun_get _ _ _ _ _ j b hj⟩
+    · have hst := (freezeFrom_stale c s n0 thr get stopped hn).1
+      refine ⟨s, chain, by simp [stepTop, hst], ?_, hi⟩
+      show (if n0 = chain.length + 1 then _ else _)
+      rw [if_neg (by omega)]
+  | truncateRace n0 k =>
+    have hnum := hi.number
+    by_cases hle : n0 ≤ s.h.number
+    · by_cases hg : k > 0 ∧ k + 1 < n0
+      · have hk : 1 ≤ k ∧ k < chain.length := by omega
+        obtain ⟨s', h1, h2⟩ := (truncateTop_spec ok hi k).1 hk
+        have heq : truncateFrom c s n0 k = truncateTop c s k := by
+          unfold truncateFrom truncateTop
+          rw [if_pos hg, if_pos (by omega : k > 0 ∧ k + 1 < s.h.number)]
+        refine ⟨s', chain.take k, by simp [stepTop, hle, heq, h1], ?_, h2⟩
+        show _ = (if _ then _ else _)
+        rw [if_pos (by omega)]
+      · refine ⟨s, chain, by simp [stepTop, hle, truncateFrom, hg], ?_, hi⟩
+        show _ = (if _ then _ else _)
+        rw [if_neg (by omega)]
+    · refine ⟨s, chain, by simp [stepTop, hle], ?_, hi⟩
+      show _ = (if _ then _ else _)
+      rw [if_neg (by omega)]
 
 inductive SpecRunTop (c : Cfg) : Top → List Block → List TopOp → Top → List Block → Prop
   | nil (s chain) : SpecRunTop c s chain [] s chain
@@ -711,6 +947,364 @@ example : ((openTop demoCfg emptyDisk).bind fun s0 =>
           demoView r.1 ==
             (5, some 24, [(0, 0), (0, 7), (0, 14), (1, 8), (1, 14)], .some [23, 12, 3, 1, 5, 5, 5]))) =
     some (3, some 12, .ok [(23, 3, 1), (24, 4, 2)], true) := by
+  decide
+
+/-! ## round 6 — `open` on EVERY disk: the decision table
+
+`FreezerFilesBuilder::build` is total in the model (`«open»` is defined on every `Disk`: index
+entries no history wrote, data files of any length, older files short or missing).  The theorems
+below say what it decides, with no hypothesis on the disk.  The harness drives the real `build`
+exhaustively over all small disks (stream `freezer`, op `raw`). -/
+
+/-- **Decision table.** On every disk, `open` is: `Err` for an INDEX of 1..11 bytes; the default
+    entry for an empty INDEX; then walk the index entries from the newest to the oldest and stop at
+    the first whose data file holds at least `offset` bytes — it becomes the head, its file is cut
+    to `offset`, the entries after it are dropped; `Err` if no entry passes. -/
+theorem open_decision_table (d : Disk) : «open» d = openTable d := open_eq_table d
+
+/-- `open` fails on exactly two kinds of disk: an INDEX shorter than one entry but not empty, and
+    an INDEX none of whose entries' data files reaches the recorded offset -/
+theorem open_fails_iff (d : Disk) :
+    «open» d = none ↔ (d.idx = [] ∧ d.tail ≠ 0) ∨
+      (d.idx ≠ [] ∧ ∀ e ∈ d.idx, (d.files e.fid).length < e.off) := open_none_iff d
+
+/-- what a successful `open` of a non-empty INDEX returns, on every disk: `number = n + 1` where
+    entry `n` is the NEWEST entry whose file reaches its offset; the INDEX keeps entries `0..n`, the
+    partial tail is trimmed, the head is entry `n`'s file cut to its offset; no other file changes -/
+theorem open_result_on_any_disk {d : Disk} {h : Handle} {d' : Disk} (ho : «open» d = some (h, d'))
+    (hne : d.idx ≠ []) :
+    ∃ n e, h.number = n + 1 ∧ d.idx[n]? = some e ∧ d'.idx = d.idx.take (n + 1) ∧ d'.tail = 0 ∧
+      h.headId = e.fid ∧ h.headBytes = e.off ∧ e.off ≤ (d.files e.fid).length ∧
+      d'.files = setFile d.files e.fid ((d.files e.fid).take e.off) ∧
+      ∀ j q, n < j → d.idx[j]? = some q → (d.files q.fid).length < q.off :=
+  open_some_result ho hne
+
+/-- a lost (empty) INDEX: `open` starts a fresh freezer and EMPTIES data file 0 ("Truncating
+    dangling head"), whatever it held -/
+theorem open_lost_index_resets {d : Disk} (hi : d.idx = []) (ht : d.tail = 0) :
+    ∃ h, «open» d = some (h, { idx := [⟨0, 0⟩], tail := 0, files := setFile d.files 0 [] }) ∧
+      h.number = 1 ∧ h.headId = 0 ∧ h.headBytes = 0 := open_empty_index hi ht
+
+/-- every INDEX the code ever wrote starts with the default entry (offset 0): such an INDEX, cut or
+    extended in any way behind that entry, with data files in ANY state, always opens -/
+theorem open_total_given_default_entry (d : Disk) (f : Nat) (l : List Entry)
+    (hd : d.idx = ⟨f, 0⟩ :: l) : ∃ h d', «open» d = some (h, d') := by
+  cases ho : «open» d with
+  | some r => exact ⟨r.1, r.2, rfl⟩
+  | none =>
+    rcases (open_fails_iff d).mp ho with h1 | h1
+    · rw [hd] at h1; simp at h1
+    · have := h1.2 ⟨f, 0⟩ (by rw [hd]; simp)
+      simp at this
+
+/-- a malformed disk no history writes: offsets not monotone, entry 2 points past the end of
+    file 1, entry 4 past the end of file 1 too, 7 bytes of a partial entry -/
+def demoMalformedDisk : Disk :=
+  { idx := [⟨0, 0⟩, ⟨0, 5⟩, ⟨1, 9⟩, ⟨0, 3⟩, ⟨1, 4⟩]
+    tail := 7
+    files := fun i => if i = 0 then [1, 2, 3, 4] else if i = 1 then [5, 6] else [] }
+
+/-- `open` stops at the newest entry that fits — entry 3 — keeps entries 0..3 and cuts file 0 to
+    3 bytes; and an INDEX whose only entry does not fit fails -/
+example : ((«open» demoMalformedDisk).map fun r =>
+      (r.1.number, r.1.headId, r.1.headBytes, r.2.idx.length, r.2.tail, r.2.files 0)) =
+    some (4, 0, 3, 4, 0, [1, 2, 3]) := by decide
+example : ((«open» demoMalformedDisk).map fun r =>
+      (retrieve r.1 r.2 1, retrieve r.1 r.2 2, retrieve r.1 r.2 3)) =
+    some (.err, .err, .some [1, 2, 3]) := by decide
+example : («open» ⟨[⟨0, 2⟩], 0, fun _ => []⟩).isNone = true := by decide
+
+/-! ## round 6 — power loss: data files OTHER than the head may be short
+
+`Freezer::freeze` ends with `sync_all` of the head data file and the INDEX only; a data file that
+was rolled over during the call is never synced by the freezer.  A power loss can therefore leave an
+OLDER data file short while INDEX and head are complete — outside the crash model of the property
+(`crash_any_cut`: older files intact), and not repaired by `open`, which only looks at the file of
+the entry it stops at.  Exactly what holds then, for every image in which every data file is some
+prefix of what was written (`PowerCut`): -/
+
+/-- **Power loss, every file cut anywhere.**  Re-opening succeeds with `number = n + 1 ≤` the old
+    one; every item `1..n` reads back byte-for-byte IF the file that holds it still reaches the
+    item's end offset and is an error otherwise; item 0 and items beyond `n` read `None`.  In
+    particular `retrieve` NEVER returns other bytes than the ones appended. -/
+theorem powerloss_open_never_wrong_bytes {d0 d : Disk} {items : List Bytes} (g : Good d0 items)
+    (pc : PowerCut d0 d) :
+    ∃ h d2 n, «open» d = some (h, d2) ∧ h.number = n + 1 ∧ n ≤ items.length ∧
+      (∀ i, i = 0 ∨ n < i → retrieve h d2 i = .none) ∧
+      (∀ i it e, 1 ≤ i → i ≤ n → items[i - 1]? = some it → d0.idx[i]? = some e →
+        retrieve h d2 i = if e.off ≤ (d2.files e.fid).length then .some it else .err) ∧
+      (∀ i x, retrieve h d2 i = .some x → 1 ≤ i ∧ items[i - 1]? = some x) := by
+  obtain ⟨h, d2, n, ho, hnum, hn, hidx, hfiles, _, _⟩ := open_powercut g pc
+  have hform : ∀ i it e, 1 ≤ i → i ≤ n → items[i - 1]? = some it → d0.idx[i]? = some e →
+      retrieve h d2 i = if e.off ≤ (d2.files e.fid).length then .some it else .err :=
+    fun i it e h1 h2 h3 h4 => retrieve_powercut g n hn hidx hnum hfiles i it e h1 h2 h3 h4
+  have hnone : ∀ i, i = 0 ∨ n < i → retrieve h d2 i = .none := by
+    intro i hi
+    unfold retrieve
+    rcases hi with hi | hi
+    · simp [hi]
+    · have : h.number ≤ i := by omega
+      by_cases h1 : i < 1
+      · simp [h1]
+      · simp [h1, this]
+  refine ⟨h, d2, n, ho, hnum, hn, hnone, hform, ?_⟩
+  intro i x hx
+  have hlen := g.idx_length
+  by_cases hi : i = 0 ∨ n < i
+  · rw [hnone i hi] at hx; cases hx
+  · have h1 : 1 ≤ i := by omega
+    have h2 : i ≤ n := by omega
+    obtain ⟨it, hit⟩ : ∃ it, items[i - 1]? = some it :=
+      ⟨items[i - 1]'(by omega), List.getElem?_eq_getElem _⟩
+    obtain ⟨e, he⟩ : ∃ e, d0.idx[i]? = some e := ⟨d0.idx[i]'(by omega), List.getElem?_eq_getElem _⟩
+    rw [hform i it e h1 h2 hit he] at hx
+    split at hx
+    · cases hx; exact ⟨h1, hit⟩
+    · cases hx
+
+/-- **Which items stay safe, exactly**: after a power loss and re-open, item `i` (of the `n` kept)
+    reads back iff the data file holding it still reaches the item's end offset.  Hence all `n`
+    items are safe iff every kept index entry's file reaches its offset — which the head always
+    does after `open`, and an older file does iff the power loss did not shorten it below the last
+    kept item stored in it. -/
+theorem powerloss_items_safe_iff {d0 d : Disk} {items : List Bytes} (g : Good d0 items)
+    (pc : PowerCut d0 d) :
+    ∃ h d2 n, «open» d = some (h, d2) ∧ h.number = n + 1 ∧ n ≤ items.length ∧
+      ((∀ i it, 1 ≤ i → i ≤ n → items[i - 1]? = some it → retrieve h d2 i = .some it) ↔
+       (∀ i e, 1 ≤ i → i ≤ n → d0.idx[i]? = some e → e.off ≤ (d2.files e.fid).length)) := by
+  obtain ⟨h, d2, n, ho, hnum, hn, _, hform, _⟩ := powerloss_open_never_wrong_bytes g pc
+  have hlen := g.idx_length
+  refine ⟨h, d2, n, ho, hnum, hn, ?_, ?_⟩
+  · intro hall i e h1 h2 he
+    obtain ⟨it, hit⟩ : ∃ it, items[i - 1]? = some it :=
+      ⟨items[i - 1]'(by omega), List.getElem?_eq_getElem _⟩
+    have := hall i it h1 h2 hit
+    rw [hform i it e h1 h2 hit he] at this
+    split at this
+    · assumption
+    · cases this
+  · intro hall i it h1 h2 hit
+    obtain ⟨e, he⟩ : ∃ e, d0.idx[i]? = some e := ⟨d0.idx[i]'(by omega), List.getElem?_eq_getElem _⟩
+    rw [hform i it e h1 h2 hit he, if_pos (hall i e h1 h2 he)]
+
+/-- **Power loss at the `Freezer` layer.**  From a freezer holding `chain`, after a power loss that
+    cuts the INDEX anywhere behind its first entry and EVERY data file to any prefix,
+    `Freezer::open` still succeeds (the block it derives `tip` from lies in the file the repair
+    loop stopped at, which it cut to exactly that block's end), `number` does not grow, `tip` is the
+    last block kept, and no `retrieve` returns anything but the block frozen at that height —
+    blocks in a shortened older file answer `Err` (`powerloss_older_file_short_is_not_repaired`). -/
+theorem powerloss_freezer_open_succeeds {c : Cfg} (ok : c.Ok) {s : Top} {chain : List Block}
+    (hi : TopInv c s chain) {d : Disk} (pc : PowerCut s.d d) :
+    ∃ s2 n, openTop c d = some s2 ∧ s2.number = n + 1 ∧ n ≤ chain.length ∧
+      s2.tip = (chain.take n).getLast? ∧
+      (∀ i x, retrieveTop c s2 i = .some x → 1 ≤ i ∧ ∃ b, chain[i - 1]? = some b ∧ x = c.enc b) := by
+  obtain ⟨h, d2, n, ho, hnum, hn, hidx, hfiles, hhead, _⟩ := open_powercut hi.good pc
+  have hn' : n ≤ chain.length := by simpa using hn
+  have hlen := hi.good.idx_length
+  simp only [List.length_map] at hlen
+  -- what `retrieve` answers on the re-opened files layer
+  have hform : ∀ i b e, 1 ≤ i → i ≤ n → chain[i - 1]? = some b → s.d.idx[i]? = some e →
+      retrieve h d2 i = if e.off ≤ (d2.files e.fid).length then .some (stored c b) else .err :=
+    fun i b e h1 h2 hb he => retrieve_powercut hi.good n hn hidx hnum hfiles i (stored c b) e h1 h2
+      (by rw [List.getElem?_map, hb]; rfl) he
+  have hnone : ∀ i, i = 0 ∨ n < i → retrieve h d2 i = .none := by
+    intro i hi'
+    unfold retrieve
+    rcases hi' with hi' | hi'
+    · simp [hi']
+    · have : h.number ≤ i := by omega
+      by_cases h1 : i < 1
+      · simp [h1]
+      · simp [h1, this]
+  have hwrong : ∀ i x, retrieveRaw c h d2 i = .some x →
+      1 ≤ i ∧ ∃ b, chain[i - 1]? = some b ∧ x = c.enc b := by
+    intro i x hx
+    by_cases hi' : i = 0 ∨ n < i
+    · unfold retrieveRaw at hx; rw [hnone i hi'] at hx; cases hx
+    · have h1 : 1 ≤ i := by omega
+      have h2 : i ≤ n := by omega
+      obtain ⟨b, hb⟩ : ∃ b, chain[i - 1]? = some b :=
+        ⟨chain[i - 1]'(by omega), List.getElem?_eq_getElem _⟩
+      obtain ⟨e, he⟩ : ∃ e, s.d.idx[i]? = some e := ⟨s.d.idx[i]'(by omega), List.getElem?_eq_getElem _⟩
+      unfold retrieveRaw at hx
+      rw [hform i b e h1 h2 hb he] at hx
+      by_cases hfit : e.off ≤ (d2.files e.fid).length
+      · rw [if_pos hfit] at hx
+        simp only [stored, ok.snappy] at hx
+        cases hx
+        exact ⟨h1, b, hb, rfl⟩
+      · rw [if_neg hfit] at hx
+        cases hx
+  unfold openTop
+  rw [ho]
+  simp only
+  by_cases hn0 : n = 0
+  · subst hn0
+    have : ¬ h.number > 1 := by omega
+    rw [if_neg this]
+    exact ⟨_, 0, rfl, hnum, by omega, by simp, fun i x hx => hwrong i x hx⟩
+  · have hgt : h.number > 1 := by omega
+    rw [if_pos hgt]
+    obtain ⟨b, hb⟩ : ∃ b, chain[n - 1]? = some b :=
+      ⟨chain[n - 1]'(by omega), List.getElem?_eq_getElem _⟩
+    obtain ⟨e, he⟩ : ∃ e, s.d.idx[n]? = some e := ⟨s.d.idx[n]'(by omega), List.getElem?_eq_getElem _⟩
+    have hfit : e.off ≤ (d2.files e.fid).length := by rw [(hhead e he).2.2.2.1]; exact Nat.le_refl _
+    have hr : readBlock c h d2 (h.number - 1) = some b := by
+      have : h.number - 1 = n := by omega
+      rw [this]
+      unfold readBlock retrieveRaw
+      rw [hform n b e (by omega) (Nat.le_refl _) hb he, if_pos hfit]
+      simp only [stored, ok.snappy]
+      exact ok.codec b
+    rw [hr]
+    refine ⟨_, n, rfl, hnum, hn', ?_, fun i x hx => hwrong i x hx⟩
+    show some b = _
+    rw [getLast?_eq_getElem?]
+    have : (chain.take n).length - 1 = n - 1 := by simp; omega
+    rw [this, List.getElem?_take]
+    simp [hb]; omega
+
+/-- the four-item history (`demoOps`: three items in file 0, the fourth rolled into file 1) after a
+    power loss that leaves INDEX and file 1 complete but file 0 at 20 of its 45 bytes -/
+def demoPowerLossDisk : Disk :=
+  let s := (run 50 demoSys demoOps).getD demoSys
+  { s.d with files := fun i => if i = 0 then (s.d.files 0).take 20 else s.d.files i }
+
+/-- **Witness (older file short is not repaired).**  `open` succeeds and still announces all four
+    items (`number = 5`), items 2 and 3 are unreadable (`Err`) for good, items 1 and 4 read back:
+    "n ≥ the items whose data and index were fully written" holds only because the property's crash
+    model keeps older files intact.  The code never syncs a data file it rolls away from. -/
+theorem powerloss_older_file_short_is_not_repaired :
+    ((«open» demoPowerLossDisk).map fun r => (r.1.number, retrieve r.1 r.2 1, retrieve r.1 r.2 2,
+        retrieve r.1 r.2 3, retrieve r.1 r.2 4)) =
+      some (5, .some (List.replicate 15 1), .err, .err, .some (List.replicate 15 4)) := by decide
+
+/-- **Witness (silent corruption after a power loss).**  On that re-opened freezer `truncate 2`
+    makes file 0 the head again and `set_len`s it to item 2's end offset 30 — EXTENDING the
+    20-byte file with zeros: item 2 now reads `Some` of 5 real bytes followed by 10 zero bytes. -/
+theorem powerloss_then_truncate_returns_zero_filled_bytes :
+    ((«open» demoPowerLossDisk).map fun r =>
+        let t := truncate r.1 r.2 2
+        (t.1.number, retrieve t.1 t.2 2)) =
+      some (3, .some (List.replicate 5 2 ++ List.replicate 10 0)) := by decide
+
+/-! ## round 6 — concurrent use as it exists
+
+`freeze` and `truncate` read `self.number()` before taking the lock (`Model/FreezerTop.lean`,
+`freezeFrom` / `truncateFrom`).  `TopOp.freezeRace` / `TopOp.truncateRace` put those operations —
+with ANY stale value for a freeze — into the histories of `freezer_holds_chain_prefix`, so that
+theorem now covers every interleaving of whole operations of a freezer thread with other threads'
+freezes, truncates (guard `n0 ≤ number`), re-opens and crashes.  The statements below say what the
+stale read does.  Stream `top` drives the real race with threads (op `race`). -/
+
+/-- **A freeze that lost a race changes nothing.**  If `number` moved between a freeze's pre-lock
+    read (`n0`) and its lock — a `truncate` (number fell) or another `freeze` (number grew) — the
+    call appends nothing and leaves `number`, `tip` and every `retrieve` as they were; it returns
+    `Err` iff its first iteration got as far as a block (`n0 < thr`, flag clear, block served), else
+    `Ok` with an empty map. -/
+theorem freeze_with_stale_number_is_harmless {c : Cfg} (ok : c.Ok) {s : Top} {chain : List Block}
+    (hi : TopInv c s chain) (n0 thr : Nat) (get : Nat → Option Block) (stopped : Nat → Bool)
+    (hne : n0 ≠ s.number) :
+    (freezeFrom c s n0 thr get stopped).1 = s ∧
+    Holds c (freezeFrom c s n0 thr get stopped).1 chain ∧
+    ((freezeFrom c s n0 thr get stopped).2 = .err ↔
+      n0 < thr ∧ stopped n0 = false ∧ (get n0).isSome = true) ∧
+    ((freezeFrom c s n0 thr get stopped).2 ≠ .err → (freezeFrom c s n0 thr get stopped).2 = .ok []) := by
+  obtain ⟨h1, h2, h3⟩ := freezeFrom_stale c s n0 thr get stopped hne
+  refine ⟨h1, ?_, h2, h3⟩
+  rw [h1]; exact holds_of_inv ok hi
+
+/-- the un-raced operations are the instances "the pre-lock read is current" -/
+theorem freeze_is_freezeFrom_current (c : Cfg) (s : Top) (thr : Nat) (get : Nat → Option Block)
+    (stopped : Nat → Bool) :
+    freeze c s thr get stopped = freezeFrom c s s.number thr get stopped ∧
+    ∀ k, truncateTop c s k = truncateFrom c s s.number k := ⟨rfl, fun _ => rfl⟩
+
+/-- **freeze racing truncate**: a freeze reads `number`, a `truncate k` (reorg) runs, the freeze
+    takes the lock: the freezer holds exactly blocks `1..k` with tip = block `k`, the freeze added
+    nothing of the stale branch (whatever the source serves), and a later freeze of a branch that
+    links to block `k` is accepted (`truncate_then_freeze`). -/
+theorem freeze_racing_truncate {c : Cfg} (ok : c.Ok) {s : Top} {chain : List Block}
+    (hi : TopInv c s chain) (k : Nat) (h1 : 1 ≤ k) (h2 : k < chain.length)
+    (thr : Nat) (get : Nat → Option Block) (stopped : Nat → Bool) :
+    ∃ s1, truncateTop c s k = some s1 ∧
+      (freezeFrom c s1 s.number thr get stopped).1 = s1 ∧
+      Holds c (freezeFrom c s1 s.number thr get stopped).1 (chain.take k) ∧
+      ((freezeFrom c s1 s.number thr get stopped).2 = .err ∨
+       (freezeFrom c s1 s.number thr get stopped).2 = .ok []) := by
+  obtain ⟨s1, ht, hi1⟩ := (truncateTop_spec ok hi k).1 ⟨h1, h2⟩
+  have hn1 : s1.number = k + 1 := by
+    have := hi1.number; simp only [List.length_take] at this; show s1.h.number = _; omega
+  have hn : s.number = chain.length + 1 := hi.number
+  have hne : s.number ≠ s1.number := by omega
+  obtain ⟨e1, e2, _, e4⟩ := freeze_with_stale_number_is_harmless ok hi1 s.number thr get stopped hne
+  refine ⟨s1, ht, e1, e2, ?_⟩
+  by_cases he : (freezeFrom c s1 s.number thr get stopped).2 = .err
+  · exact Or.inl he
+  · exact Or.inr (e4 he)
+
+/-- **freeze racing freeze** (the background freezer thread and another caller of `Shared::freeze`):
+    both read the same `number`; the one that takes the lock second finds `number` moved iff the
+    first appended something, and then appends nothing — no block is stored twice, none skipped -/
+theorem freeze_racing_freeze (c : Cfg) (s : Top) (thrA thrB : Nat) (getA getB : Nat → Option Block)
+    (stopA stopB : Nat → Bool) :
+    let a := (freeze c s thrA getA stopA).1
+    (a.number ≠ s.number →
+      (freezeFrom c a s.number thrB getB stopB).1 = a) ∧
+    (a.number = s.number →
+      freezeFrom c a s.number thrB getB stopB = freeze c a thrB getB stopB) := by
+  intro a
+  constructor
+  · intro hne
+    exact (freezeFrom_stale c a s.number thrB getB stopB (fun h => hne h.symm)).1
+  · intro he
+    show freezeFrom c a s.h.number thrB getB stopB = freezeFrom c a a.h.number thrB getB stopB
+    rw [show s.h.number = a.h.number from he.symm]
+
+/-- **truncate racing freeze**: a truncate whose guard read `n0 ≤ number` (only freezes ran in
+    between) never fails: it is the un-raced truncate, or — guard false on the stale value — a no-op -/
+theorem truncate_with_stale_low_number {c : Cfg} (ok : c.Ok) {s : Top} {chain : List Block}
+    (hi : TopInv c s chain) (n0 k : Nat) (hle : n0 ≤ s.number) :
+    ∃ s' chain', truncateFrom c s n0 k = some s' ∧ TopInv c s' chain' ∧
+      chain' = if 1 ≤ k ∧ k + 1 < n0 then chain.take k else chain := by
+  have hnum : s.h.number = chain.length + 1 := hi.number
+  have hle' : n0 ≤ s.h.number := hle
+  by_cases hg : k > 0 ∧ k + 1 < n0
+  · have hk : 1 ≤ k ∧ k < chain.length := by omega
+    obtain ⟨s', h1, h2⟩ := (truncateTop_spec ok hi k).1 hk
+    have heq : truncateFrom c s n0 k = truncateTop c s k := by
+      unfold truncateFrom truncateTop
+      rw [if_pos hg, if_pos (by omega : k > 0 ∧ k + 1 < s.h.number)]
+    exact ⟨s', chain.take k, by rw [heq, h1], h2, by rw [if_pos (by omega)]⟩
+  · exact ⟨s, chain, by simp [truncateFrom, hg], hi, by rw [if_neg (by omega)]⟩
+
+/-- **Witness: two racing truncates can hit the `expect`.**  Four blocks frozen (`number` 5); thread
+    2 evaluates the guard of `truncate 3` (`4 < 5`), thread 1 runs `truncate 1` (`number` 2), thread
+    2 takes the lock: `FreezerFiles::truncate(3)` is now a no-op, `retrieve(3)` is `None`, and
+    `.expect("frozen number sync with files")` panics.  (No caller in this tree runs two truncates
+    concurrently; the model records it as `none`.) -/
+theorem truncate_racing_truncate_can_panic :
+    ((openTop demoCfg emptyDisk).bind fun s0 =>
+      let s := (freeze demoCfg s0 5 (serve chainA 1) noStop).1
+      (truncateTop demoCfg s 1).map fun s1 =>
+        (s.number, s1.number, (truncateFrom demoCfg s1 s.number 3).isNone)) =
+      some (5, 2, true) := by decide
+
+/-- non-vacuity: a freeze that read `number = 4`, then `truncate 2` ran: served the old branch's
+    block 4 it returns `Err` and stores nothing; the new branch is then frozen normally -/
+example : ((openTop demoCfg emptyDisk).bind fun s0 =>
+      let s := (freeze demoCfg s0 4 (serve chainA 1) noStop).1
+      (truncateTop demoCfg s 2).map fun s1 =>
+        let r := freezeFrom demoCfg s1 4 7 (serve chainA 1) noStop
+        let r2 := freeze demoCfg r.1 5 (serve branchB 3) noStop
+        (r.2, r.1.number, r.1.tip.map (·.hash), r2.2, r2.1.number)) =
+    some (.err, 3, some 12, .ok [(23, 3, 1), (24, 4, 2)], 5) := by decide
+
+/-- non-vacuity of the race histories: freeze, a raced freeze with a stale read, a raced truncate -/
+example : ((openTop demoCfg emptyDisk).bind fun s0 => runTop demoCfg s0
+    [.freeze 5 (serve chainA 1) noStop, .truncateRace 4 2, .freezeRace 5 7 (serve chainA 1) noStop,
+     .freezeRace 3 5 (serve branchB 3) noStop]).map demoView =
+    some (5, some 24, [(0, 0), (0, 7), (0, 14), (1, 8), (1, 14)], .some [23, 12, 3, 1, 5, 5, 5]) := by
   decide
 
 end CkbVerif.C09
